@@ -80,6 +80,8 @@ def check(a):
         return rc
     cfg = dict(TIERS[(prop, tier)])
     known = simlib.load_known()
+    import shutil
+    shutil.rmtree(os.path.join(simlib.REPLAYS, prop), ignore_errors=True)  # replay files of this run only
     deadline = t0 + (900 if tier == 'quick' else 6 * 3600)
     phases = []
     mode = MODE[prop]
